@@ -327,6 +327,35 @@ def rule_file_separator(ctx, rep: Report, rid="Y1"):
     fn = prog.method("MatlabWrapper", "wrap")
     files_p = func_params(fn)[1]
     parse = [c for c in walk_no_nested(fn) if isinstance(c, ast.Call) and unparse(c.func).endswith("Module.parseString")]
+    # a parse of a constant text (`parseString("")` for an empty file list) reads no file
+    parse = [c for c in parse if not (c.args and isinstance(c.args[0], ast.Constant))]
+    file_loops = [l for l in walk_no_nested(fn) if isinstance(l, ast.For) and files_p in {x.id for x in ast.walk(l.iter) if isinstance(x, ast.Name)}]
+    per_file = [c for c in parse if any(any(x is c for x in ast.walk(l)) for l in file_loops)]
+    if per_file and len(per_file) == len(parse):
+        # the other design: every file parsed by itself (nothing can fuse), the trees merged afterwards.  The merged
+        # tree equals the tree of the concatenation only if the elements of every file hang below the *one* global
+        # namespace that is wrapped: they have to be handed to the Namespace constructor (which re-parents the
+        # children it is given); splicing content lists leaves the elements of later files pointing at the global
+        # namespace of their own file, and every walk up the parent links (is_global_enum, qualified names) then
+        # sees only that file
+        ns = prog.cls("Namespace")
+        ninit = prog.method("Namespace", "__init__")
+        reparents = any(isinstance(st, ast.Assign) and isinstance(st.targets[0], ast.Attribute) and st.targets[0].attr == "parent"
+                        and unparse(st.value) == "self" for st in ast.walk(ninit))
+        built = [c for c in walk_no_nested(fn) if isinstance(c, ast.Call) and prog.resolve_class(c.func, ci.mod) is ns
+                 and not any(any(x is c for x in ast.walk(l)) for l in file_loops)]
+        spliced = [c for c in ast.walk(fn) if isinstance(c, ast.Call) and isinstance(c.func, ast.Attribute) and c.func.attr in ("extend", "append", "insert")
+                   and unparse(c.func.value).endswith(".content")] + \
+                  [a_ for a_ in ast.walk(fn) if isinstance(a_, ast.AugAssign) and unparse(a_.target).endswith(".content")
+                   and any(any(x is a_ for x in ast.walk(l)) for l in file_loops)]
+        ok_b = reparents and len(built) == 1 and not spliced
+        rep.add(rid, "MatlabWrapper.wrap:files parsed one by one are merged below one global namespace (children re-parented)", ok_b,
+                f"{len(per_file)} per-file parse call(s); merged by {'a Namespace(...) constructor call' if built else 'no constructor call'}"
+                f"{', content lists spliced at line(s) ' + str(sorted({x.lineno for x in spliced})) if spliced else ''}: the top-level elements of every "
+                f"file but the first keep the parent link of their own file's global namespace, so a class in a later file no longer sees a "
+                f"global enum (or any other declaration) of an earlier file: wrapping the list differs from wrapping their concatenation",
+                f"{ci.mod.rel}:{per_file[0].lineno}")
+        return
     rep.add(rid, "MatlabWrapper.wrap:the concatenation is parsed once", len(parse) == 1, f"{len(parse)} parse calls",
             f"{ci.mod.rel}:{fn.lineno}", nontrivial=False)
     if not parse or not parse[0].args:
